@@ -65,10 +65,33 @@ func (g *Gen) byteFor(pad byte) byte {
 	}
 }
 
+var multibyte = [][]byte{[]byte("中"), []byte("文"), []byte("é"), []byte("沪"), []byte("€"), []byte("😀")}
+
 func (g *Gen) bytes(n int, pad byte) []byte {
 	b := make([]byte, n)
 	for i := range b {
 		b[i] = g.byteFor(pad)
+	}
+	// valid multi-byte UTF-8 text (possibly reaching the end of the value, so that a cut may fall inside a rune)
+	if n >= 2 && g.r.Intn(4) == 0 {
+		k := 1 + g.r.Intn(3)
+		pos := g.r.Intn(n)
+		if g.r.Intn(2) == 0 {
+			pos = n - 1 - g.r.Intn(min(n, 4))
+		}
+		for ; k > 0 && pos < n; k-- {
+			mb := multibyte[g.r.Intn(len(multibyte))]
+			pos += copy(b[pos:], mb)
+		}
+	}
+	return b
+}
+
+// text made only of valid multi-byte runes (rune count much smaller than byte count)
+func (g *Gen) runes(nRunes int) []byte {
+	var b []byte
+	for i := 0; i < nRunes; i++ {
+		b = append(b, multibyte[g.r.Intn(len(multibyte))]...)
 	}
 	return b
 }
@@ -107,6 +130,9 @@ func (g *Gen) canonFixed(n int, pad byte, left bool) []byte {
 
 // arbitrary fixed text: may be too long, may start/end with pad
 func (g *Gen) anyFixed(n int, pad byte) []byte {
+	if n > 0 && g.r.Intn(8) == 0 {
+		return g.runes(1 + g.r.Intn(n+1)) // up to n+1 runes: more bytes than n, possibly fewer runes than n
+	}
 	var l int
 	switch g.r.Intn(6) {
 	case 0:
